@@ -17,9 +17,11 @@
   * for sifting with two variables the relation is TOTAL: every valid choice has a returning run
     (`C07_sift_accepts_every_choice`, from `C07_sift`);
   * the guards `isSchedErr … = false` of the history theorems follow from "`sch` encodes a
-    choice" (`EncodesChoice`, decidable).
+    choice" (`EncodesChoice`, decidable), which holds exactly of the records of valid choices
+    (`C07_encodes_iff_choice`).
 -/
 import DDProofs.SchedAcceptGuards
+import DDProofs.SchedReplay
 import DDProps.C09Sched
 open Std
 
@@ -117,13 +119,31 @@ theorem C07_sift_guard_every_choice (m : Mgr) (ext : Nat → Nat) (h : Good3 m e
     ∃ sch, logOf (reorderC c none [] m).1 = some sch ∧ OpGuard2 m ext (.sift sch) :=
   sift_guard_total m ext h h2 c hc
 
+/-- C07 (guards, the decidable guard is EXACT): a schedule encodes a choice — replaying the choice
+read off the schedule records the schedule — IFF it is the record of a returning choice-driven run
+under SOME valid choice (DDProofs.SchedReplay: a run depends on the choice only through the
+answers recorded) -/
+theorem C07_encodes_iff_choice (m : Mgr) (sch : List SchedItem) :
+    (∀ order, EncodesChoice (fun c => reorderC c order) m sch ↔
+      ∃ c : Choice, c.Valid ∧ logOf (reorderC c order [] m).1 = some sch) ∧
+    (∀ x y, EncodesChoice (fun c => swapPublicC c x y) m sch ↔
+      ∃ c : Choice, c.Valid ∧ logOf (swapPublicC c x y [] m).1 = some sch) ∧
+    (∀ ps, EncodesChoice (fun c => reorderToPairsC c ps) m sch ↔
+      ∃ c : Choice, c.Valid ∧ logOf (reorderToPairsC c ps [] m).1 = some sch) :=
+  ⟨fun order => ⟨fun h => ⟨_, Choice.ofSched_valid sch, h⟩,
+      fun ⟨c, hc, hl⟩ => (encodes_of_choice c hc m sch).1 order hl⟩,
+   fun x y => ⟨fun h => ⟨_, Choice.ofSched_valid sch, h⟩,
+      fun ⟨c, hc, hl⟩ => (encodes_of_choice c hc m sch).2.1 x y hl⟩,
+   fun ps => ⟨fun h => ⟨_, Choice.ofSched_valid sch, h⟩,
+      fun ⟨c, hc, hl⟩ => (encodes_of_choice c hc m sch).2.2 ps hl⟩⟩
+
 /-! ### non-vacuity: a choice that is not the default one -/
 
 /-- every set in descending order -/
-def Choice.rev : Choice := ⟨List.reverse, fun _ _ l => l.reverse⟩
+def Choice.rev : Choice := ⟨fun _ l => l.reverse, fun _ _ l => l.reverse⟩
 
 theorem Choice.rev_valid : Choice.rev.Valid :=
-  ⟨fun l => List.reverse_perm l, fun _ _ l => List.reverse_perm l⟩
+  ⟨fun _ l => List.reverse_perm l, fun _ _ l => List.reverse_perm l⟩
 
 /-- the record of sifting `exSchedM` (three variables, five nodes; DDProps.C09Sched) under
 `Choice.rev`: the variables in the order `c, b, a`, thirteen swaps — the default choice visits
